@@ -348,6 +348,31 @@ def check_c04(tier, seed):
     finally:
         TM.close()
     R.coverage["type_and_name_cases"] = ty_cases
+    # createASTTypeExpr on constructed types: model (KV/GenConv.lean) vs implementation, and a read-back judgement
+    from . import typeconv_stream as TCS
+    ng = 4000 if tier == "quick" else 60000
+    grng = G.SplitMix64(seed * 15485863 + 11)
+    gl = [TCS.gen_line_g(grng) for _ in range(ng)]
+    glines = [l for l, _ in gl]
+    gmodel = C.lean_driver(glines)
+    rc_g, gimpl, out_g = C.go_driver(repo_dir, "kessoku", glines)
+    if len(gimpl) < len(glines):
+        gimpl += ["NO-ANSWER"] * (len(glines) - len(gimpl))
+    gdiffs = [i for i, (a, b) in enumerate(zip(gmodel, gimpl)) if a != b]
+    R.oblige("correspondence: GConv.render (KV/GenConv.lean) = createASTTypeExpr + import table on %d constructed types" % ng, not gdiffs,
+             "%d differ; first: %s" % (len(gdiffs), [(glines[i], gmodel[i], gimpl[i]) for i in gdiffs[:1]]))
+    src_c = open(os.path.join(C.REPO, "internal", "kessoku", "const.go")).read()
+    reserved = set(re.findall(r'"([a-zA-Z0-9_]+)"', src_c))
+    gbad = [(len(glines[i]), i, w) for i, w in ((i, TCS.judge(gl[i][1], gimpl[i], reserved)) for i in range(ng)) if w]
+    if gbad:
+        _, i, w = min(gbad)
+        R.violation("a type is not spelled as the type it denotes: %s  [%s -> %s]" % (w, glines[i], gimpl[i]),
+                    {"kind": "input", "failing_input": glines[i], "observed": gimpl[i], "model": gmodel[i], "cases_failing": len(gbad),
+                     "reproduce": "echo '%s' > ops; VERIF_OPS=ops VERIF_OUT=out go test -tags verif -run TestVerifDriver ./internal/kessoku (in /repo)" % glines[i]})
+    R.coverage["type_expressions"] = {"types": ng, "with_renamed_import": sum(1 for a in gimpl if re.search(r"[a-z]\d+\.N", a)),
+                                      "with_type_arguments": sum(1 for a in gimpl if re.search(r"N\d+\[", a)), "function_types": sum(1 for a in gimpl if "func(" in a),
+                                      "struct_literals": sum(1 for a in gimpl if "struct{" in a), "interface_literals_with_methods": sum(1 for a in gimpl if "interface{M" in a),
+                                      "with_registered_names": sum(1 for _, m in gl if m["pre"])}
     from . import xpkg
     try:
         xpkg.judge(R, xpkg.xpkg_stream(tier, seed), {"C04"})
@@ -356,6 +381,10 @@ def check_c04(tier, seed):
     diffs = emission_diffs(S)
     R.oblige("correspondence: text of the emitted functions = model emission (KV.planDumpE) on %d declarations" % len(S["ok"]), not diffs,
              "%d differ; first: %s" % (len(diffs), [d[1:] for d in diffs[:1]]))
+    if gdiffs and not R.violations:
+        i = gdiffs[0]
+        R.violation("the createASTTypeExpr model and the implementation differ on %d types; every implementation answer denotes the type it was made from" % len(gdiffs),
+                    {"kind": "correspondence-broken", "correspondence": "GConv.render vs createASTTypeExpr", "case": glines[i], "model": gmodel[i], "impl": gimpl[i]})
     if diffs and not R.violations:
         i, l, a, b = diffs[0]
         R.violation("emitted code differs from the model's emission on %d declarations, and the package compiles" % len(diffs),
